@@ -353,6 +353,16 @@ def run_case(ctx, desc):
         if oa.get(name) != ob[name]:
             return ctx.violation(f"{kind}.setter_built_ne_constructor_built.reported.{name}",
                                  f"{name}: setter-built reports {oa.get(name)}, constructor-built {ob[name]}", desc, {"A": oa, "B": ob})
+    if kind == "neuron" and not desc.get("used_before"):
+        # a group that was never stepped is at rest whatever sequence of assignments configured it (no clear() in between:
+        # what a user reads, or steps from, right after the last assignment)
+        ctx.count("resting_state_comparisons")
+        for nm in ("voltage", "refrac"):
+            va, vb = getattr(A, nm).detach(), getattr(B, nm).detach()
+            if va.shape != vb.shape or not torch.equal(va, vb):
+                return ctx.violation(f"neuron.setter_built_not_at_rest.{nm}",
+                                     f"{nm} of a never-stepped setter-built group differs from a freshly built one: "
+                                     f"{va.flatten()[:4].tolist()} vs {vb.flatten()[:4].tolist()}", desc)
     ra, rb = _records(A), _records(B)
     if ra != rb:
         diff = [k for k in set(ra) | set(rb) if ra.get(k) != rb.get(k)]
